@@ -2359,6 +2359,19 @@ _resource_tracker""")),
         )
         for _ in range(count):
             self._lock.release()""")),
+    M("tracker-launch-names-package-literally", ["C11", "C12", "C13", "C18"], ["R-VENDOR"],
+      (RT, '''            cmd = f"from {main.__module__} import main; main({r}, {VERBOSE})"''', """            cmd = (
+                "from loky.backend.resource_tracker import main; "
+                f"main({r}, {VERBOSE})"
+            )""")),
+    M("worker-launch-names-module-literally", ["C18"], ["R-VENDOR"],
+      (PP, """            cmd_python += ["-m", self.__module__]""", """            cmd_python += ["-m", "loky.backend.popen_loky_posix"]""")),
+    M("absolute-import-of-own-package", ["C12", "C13"], ["R-VENDOR"],
+      (SY, """from . import resource_tracker""", """from loky.backend import resource_tracker""")),
+    M("feeder-hook-attaches-live-exception", ["C04", "C20"], ["R-LIVE-EXC"],
+      (PE, """            raised_error.__cause__ = _RemoteTraceback("".join(tb))
+            work_item = self.pending_work_items.pop(obj.work_id, None)""", """            raised_error.__cause__ = e
+            work_item = self.pending_work_items.pop(obj.work_id, None)""")),
 ]
 
 
@@ -2590,6 +2603,8 @@ BENIGN = [
                 line = line.strip()
                 try:
                     splitted = line.decode("ascii").split(":")""")),
+    B("benign-tracker-launch-names-module-by-name-global", ["C11", "C12", "C13", "C18"],
+      (RT, '''            cmd = f"from {main.__module__} import main; main({r}, {VERBOSE})"''', '''            cmd = f"from {__name__} import main; main({r}, {VERBOSE})"''')),
     B("benign-env-overlay-copied", ["C18", "C20"],
       (PR, """        self.env = {} if env is None else env""", """        self.env = dict(env or {})""")),
     B("benign-increment-spelled-out", None,
